@@ -258,3 +258,38 @@ def omit_defaults(kw, on, total=None):
     if total is not None and total <= 16384 and out.get("gulp", 0) >= total:
         out.pop("gulp")
     return out
+
+
+class debug_logging:
+    """Context manager: every logger of the library at DEBUG level while the block runs (what a user does when
+    something looks odd).  Results must not depend on how much is being logged."""
+
+    def __init__(self, on=True):
+        self.on = on
+        self.saved = {}
+
+    def __enter__(self):
+        import logging
+
+        if self.on:
+            for name, lg in list(logging.root.manager.loggerDict.items()):
+                if name.startswith("sigpyproc") and isinstance(lg, logging.Logger):
+                    self.saved[name] = lg.level
+                    lg.setLevel(logging.DEBUG)
+            # the library re-configures its loggers whenever a reader is created: keep them at DEBUG for the duration
+            self.orig_set = logging.Logger.setLevel
+
+            def forced(lg, level, _orig=self.orig_set):
+                _orig(lg, logging.DEBUG if lg.name.startswith("sigpyproc") else level)
+
+            logging.Logger.setLevel = forced
+        return self
+
+    def __exit__(self, *a):
+        import logging
+
+        if self.on:
+            logging.Logger.setLevel = self.orig_set
+        for name, lvl in self.saved.items():
+            logging.getLogger(name).setLevel(lvl)
+        return False
